@@ -157,6 +157,32 @@ func CorpusHistories(scratch string, names map[string]bool) ([]*History, []strin
 			g.Vals[0].Power, g.Vals[1].Power, g.Vals[2].Power = 40, 30, 30
 			g.Params.MinVotingPeriodBlocks, g.Params.MaxVotingPeriodBlocks, g.Params.LazyApplyingBlocks = 1, 5, 1
 		}},
+		// evidence against a validator ALL of whose stakes are too small for the ratio (floor(p*1/100) = 0):
+		// every stake is forfeited although the slashed sum is 0; later blocks write the delegatee again
+		{"slash-when-every-stake-is-dust", 3, 2, 9, func(s *Sim, h int64) []*TxSpec {
+			switch h {
+			case 2:
+				return []*TxSpec{s.TxStake(s.User(0), s.Val(0).Addr, 3)}
+			case 4:
+				s.scriptEvidence = [][]byte{s.Val(0).Addr}
+			case 6:
+				s.scriptMiss = [][]byte{s.Val(0).Addr}
+			case 7:
+				return []*TxSpec{s.TxStake(s.User(1), s.Val(0).Addr, 2)}
+			}
+			return nil
+		}, func(g *Genesis) { easyParams(g); g.Params.SlashRatio = 1 }},
+		// downtime: with window 10 and minimum 8 the third miss inside the window (blocks 4, 6, 8) is the
+		// one that takes the validator below the minimum: it must lose all stake in that very block
+		{"downtime-at-exact-threshold", 3, 2, 14, func(s *Sim, h int64) []*TxSpec {
+			switch h {
+			case 2:
+				return []*TxSpec{s.TxStake(s.User(0), s.Val(0).Addr, 3)}
+			case 5, 7, 9: // the votes of block h are about block h-1
+				s.scriptMiss = [][]byte{s.Val(0).Addr}
+			}
+			return nil
+		}, func(g *Genesis) { easyParams(g); g.Params.SignedBlocksWindow, g.Params.MinSignedBlocks = 10, 8 }},
 		// several unbonding stakes mature in one block: several removals in one ledger commit
 		{"many-refunds-in-one-block", 2, 3, 8, func(s *Sim, h int64) []*TxSpec {
 			switch h {
